@@ -116,6 +116,26 @@ def directed(rng, quick):
                                     ops = ['ar0', 'ar1', 'w0:' + hx(rbytes(rng, 2)), 'w1:' + hx(rbytes(rng, 2)), order,
                                            rng.choice('pq'), 'w2:' + hx(rbytes(rng, 1)), rng.choice('pq'), rng.choice('pq')]
                                     yield payload('remove-ready+add-new:' + newrole + ('+readd' if extra else ''), ds, ops)
+    # --- callbacks that only act on their OWN descriptor (the region of theorem c16_backends_agree): every
+    #     sequence of up to 3 own add/remove actions in the read, write or close callback, with data and/or
+    #     hang-up, read+write registered; includes the G4 counterexamples (remove read, remove write, add write)
+    acts = ['x0r', 'a0r', 'x0w', 'a0w']
+    seqs = [[]] + [[a] for a in acts] + [[a, b] for a in acts for b in acts if a != b]
+    seqs3 = [[a, b, c3] for a in acts for b in acts for c3 in acts if len({a, b, c3}) == 3]
+    for conn in (True, False):
+        for which in ('rs', 'ws', 'cs'):
+            if which == 'cs' and not conn:
+                continue
+            pool = seqs + (seqs3 if quick is False or which != 'ws' else rng.sample(seqs3, 6))
+            for sc in pool:
+                kw = {which: sc}
+                ds = [desc('s', conn, False, rng.choice([1, 9]), **kw), desc(rng.choice(KINDS), rng.random() < 0.5, False, 9)]
+                ops = ['ar0', 'aw0', 'ar1', 'w0:' + hx(rbytes(rng, 2)), 'w1:' + hx(rbytes(rng, 1)), rng.choice('pq'),
+                       rng.choice('pq')]
+                if which == 'cs' or rng.random() < 0.5:
+                    ops += ['k0', rng.choice('pq'), rng.choice('pq')]
+                ops += ['w1:' + hx(rbytes(rng, 1)), rng.choice('pq')]
+                yield payload('self-script:' + which, ds, ops)
     # --- write readiness on sockets; write callback removing itself / the read side / another descriptor
     for conn in (True, False):
         for ws in ([], ['x0w'], ['x0r'], ['x0w', 'a0w'], ['x1r'], ['x0r', 'a0r']):
